@@ -341,6 +341,11 @@ func Vars(d gen.DataSpec, p *Probes) jet.VarMap {
 	vm.Set("gofn", func(s string, n int) string { return s })
 	vm.Set("strfn", func(x fmt.Stringer) string { return "stringer" })
 	vm.Set("nofn", func() string { return "nofn" })
+	vm.SetFunc("lettop", func(a jet.Arguments) reflect.Value {
+		// the Go-side way of declaring a variable in the current scope
+		a.Runtime().Let("zqlet", "let-by-func")
+		return reflect.ValueOf("")
+	})
 	vm.Set("nilfn", (func() string)(nil))
 	vm.Set("bytesv", []byte("ab"))
 	vm.Set("arrfn", func(a [4]string) int { return len(a) })
